@@ -107,7 +107,8 @@ def make_data_points(drag_table: DragTableDataType) -> List[DragDataPoint]:
     """Convert drag table from list of dictionaries to list of DragDataPoints"""
     try:
         return [
-            point if isinstance(point, DragDataPoint) else DragDataPoint(point['Mach'], point['CD'])
+            DragDataPoint(point.Mach, point.CD) if isinstance(point, DragDataPoint)
+            else DragDataPoint(point['Mach'], point['CD'])
             for point in drag_table
         ]
     except (KeyError, TypeError) as exc:
@@ -149,7 +150,7 @@ def DragModelMultiBC(bc_points: List[BCPoint],
 
     drag_table = make_data_points(drag_table)  # Convert from list of dicts to list of DragDataPoints
 
-    bc_points.sort(key=lambda p: p.Mach)  # Make sure bc_points are sorted for linear interpolation
+    bc_points = sorted(bc_points, key=lambda p: p.Mach)  # Make sure bc_points are sorted for linear interpolation
     bc_interp = linear_interpolation([x.Mach for x in drag_table],
                                      [x.Mach for x in bc_points],
                                      [x.BC / bc for x in bc_points])
